@@ -60,7 +60,8 @@ def fs17Case (id : String) (payload : List Sexp) : List String :=
       | some (.star false) => true
       | _ => false
     let c : Config := { cmd := cmd, pkgPrefix := fsStr p "pkg", outs := if tmpfail then [] else outs,
-                        cleanActive := ShootVerif.Cli.cleanActiveWith fl (fsStr p "aiofile"), genfile := fsStr p "genfile", listing := listing }
+                        -- (a run whose write fails stops there: Clean comes after the last successful write, `selfRun`)
+                        cleanActive := !tmpfail && ShootVerif.Cli.cleanActiveWith fl (fsStr p "aiofile"), genfile := fsStr p "genfile", listing := listing }
     let txns := c.txns
     let rms := c.clean
     let ops := c.ops
